@@ -52,6 +52,11 @@ type inst struct {
 	sharedHash func() uint64
 	// props: the properties this instance is judged under (nil = C18, and C19 for writers)
 	props []string
+	// reference, when non-nil, returns an independent but equivalent instance (own objects
+	// built from the same logical input, no draws): the model output is taken from IT, so
+	// that the shared objects of this instance are still untouched - first use included -
+	// when the judged calls begin
+	reference func() *inst
 }
 
 // judged reports whether the instance's purity clauses apply under the active property.
@@ -181,6 +186,17 @@ func sharedBuiltBundleInst(c *core.Ctx, label string) *inst {
 	}
 	in.count = func() int64 { return last.Load() }
 	in.sharedHash = func() uint64 { return hashBundle(shared) }
+	frags := map[int]string{}
+	for i, e := range shared.Exchanges {
+		frags[i] = e.Request.URL.Fragment
+	}
+	in.reference = func() *inst {
+		fresh := lb.ToRepo()
+		for i, e := range fresh.Exchanges {
+			e.Request.URL.Fragment = frags[i]
+		}
+		return &inst{name: in.name, writer: true, run: func(w io.Writer) error { _, err := writeBundleTo(fresh, w, viaCW); return err }}
+	}
 	return in
 }
 
@@ -203,6 +219,14 @@ func bundleInstOf(c *core.Ctx, label string, lb *gen.LBundle, shareParsed bool) 
 			return err
 		}
 		in.sharedHash = func() uint64 { return hashBundle(shared) }
+		file := func() []byte { var b bytes.Buffer; lb.ToRepo().WriteTo(&b); return b.Bytes() }()
+		in.reference = func() *inst {
+			again, err := bundle.Read(bytes.NewReader(file))
+			if err != nil {
+				panic(err)
+			}
+			return &inst{name: in.name, writer: true, run: func(w io.Writer) error { _, err := writeBundleTo(again, w, viaCW); return err }}
+		}
 	} else {
 		in.run = func(w io.Writer) error {
 			n, err := writeBundleTo(lb.ToRepo(), w, viaCW)
